@@ -10,6 +10,13 @@ refresh runs in the foreground (`await task`, like D19), to nobody when the refr
 A callable `ttl` is evaluated by `_wrap` before anything else and without the result, so it is not part of the
 store step here.
 
+Order in time: `_wrap` reads `cached`, compares `early_expire_at` with the clock and takes the lock when the call begins;
+`_get_result_for_early` runs the function (`d` ticks when it runs inside the call) and only then stamps
+`early_expire_at = now + early_ttl` and stores with `expire=ttl` — the inner deadline and the hard TTL both count from
+the instant the function FINISHED.  A foreground refresh (`background=False`) is awaited and its own outcome is the
+call's (`return await task`: "the caller waited for the refresh: give it the fresh result, the old one may be past its
+ttl by now" — the repair of D40; a refresh that raises still propagates = D19).
+
 Always used with an explicit `early_ttl` (the default `ttl * 0.33` is a float product outside this
 model).  Boundary mirrored from the code, not judged: at *exactly* `early_ttl` the stored result is
 still served without a refresh (`early_expire_at >= now`).
@@ -34,16 +41,19 @@ def save (c : Cfg) (t : TtlMap) (id : Nat) : TtlMap :=
   t.write kMain (pack3 t.now id (t.now + c.early)) (some c.ttl)
 
 /-- `_wrap` -/
-def call (c : Cfg) (s : St) (o : Outcome) : St × CallOut :=
+def call (c : Cfg) (s : St) (o : Outcome) (d : Nat) : St × CallOut :=
   let id := s.nexec
+  -- `cached = await backend.get(_cache_key, default=_empty)`   (at the start of the call)
   match cached3 s.t with
   | none =>
-    -- `if cached is _empty: return await _get_result_for_early(*args_to_call)`   (unlock=False)
+    -- `if cached is _empty: return await _get_result_for_early(*args_to_call)`   (unlock=False);
+    -- `result = await func(*args, **kwargs)` takes `d` ticks, the deadline is stamped and the result stored afterwards
+    let t2 := advance s.t d
     match o with
-    | .ok => ({ s with t := save c s.t id, nexec := id + 1 }, ⟨.fresh s.t.now id, true, false⟩)
-    | .rejected => ({ s with nexec := id + 1 }, ⟨.fresh s.t.now id, true, false⟩)   -- `cond_result` False: nothing stored
-    | .storeFails _ l => ({ s with nexec := id + 1 }, ⟨.storeErr l, true, false⟩)  -- `condition(…)` / `backend.set` raises
-    | _ => ({ s with nexec := id + 1 }, ⟨.raised o, true, false⟩)     -- `raise _exc`; nothing stored
+    | .ok => ({ s with t := save c t2 id, nexec := id + 1 }, ⟨.fresh t2.now id, true, false⟩)
+    | .rejected => ({ s with t := t2, nexec := id + 1 }, ⟨.fresh t2.now id, true, false⟩)   -- `cond_result` False: nothing stored
+    | .storeFails _ l => ({ s with t := t2, nexec := id + 1 }, ⟨.storeErr l, true, false⟩)  -- `condition(…)` / `backend.set` raises
+    | _ => ({ s with t := t2, nexec := id + 1 }, ⟨.raised o, true, false⟩)     -- `raise _exc`; nothing stored
   | some (stamp, id0, inner) =>
     -- `if early_expire_at >= datetime.now(timezone.utc): return return_or_raise(result)`
     if s.t.now ≤ inner then (s, ⟨.stored stamp id0, false, false⟩)
@@ -56,13 +66,14 @@ def call (c : Cfg) (s : St) (o : Outcome) : St × CallOut :=
         ({ t := t1, nexec := id + 1, inflight := s.inflight ++ [(id, s.t.now)] },
          ⟨.stored stamp id0, false, true⟩)
       else
-        -- `if not background: await task` – the task's exception propagates out of `await task` (D19);
-        -- its `finally` deletes the lock either way
+        -- `if not background: return await task` – the refresh takes `d` ticks; its result is the call's answer, its
+        -- exception propagates out of `await task` (D19); its `finally` deletes the lock either way
+        let t2 := advance t1 d
         match o with
-        | .ok => ({ s with t := (save c t1 id).remove kAux, nexec := id + 1 }, ⟨.stored stamp id0, true, true⟩)
-        | .rejected => ({ s with t := t1.remove kAux, nexec := id + 1 }, ⟨.stored stamp id0, true, true⟩)
-        | .storeFails _ l => ({ s with t := t1.remove kAux, nexec := id + 1 }, ⟨.storeErr l, true, true⟩)
-        | _ => ({ s with t := t1.remove kAux, nexec := id + 1 }, ⟨.raised o, true, true⟩)
+        | .ok => ({ s with t := (save c t2 id).remove kAux, nexec := id + 1 }, ⟨.fresh t2.now id, true, true⟩)
+        | .rejected => ({ s with t := t2.remove kAux, nexec := id + 1 }, ⟨.fresh t2.now id, true, true⟩)
+        | .storeFails _ l => ({ s with t := t2.remove kAux, nexec := id + 1 }, ⟨.storeErr l, true, true⟩)
+        | _ => ({ s with t := t2.remove kAux, nexec := id + 1 }, ⟨.raised o, true, true⟩)
 
 /-- a background `_get_result_for_early(..., unlock=True)` completes: store on success, then
 `finally: asyncio.create_task(backend.delete(key + ":lock"))` — whoever holds the lock now -/
@@ -76,7 +87,7 @@ def done (c : Cfg) (s : St) (i : Nat) (o : Outcome) : St × DoneRes :=
     | _ => ({ s with t := s.t.remove kAux, inflight := s.inflight.eraseIdx i }, .failed)
 
 def step (c : Cfg) (s : St) : DOp → St × Ans
-  | .call o => let r := call c s o; (r.1, .call r.2)
+  | .call o d => let r := call c s o d; (r.1, .call r.2)
   | .adv dt => ({ s with t := advance s.t dt }, .ok)
   | .done i o => let r := done c s i o; (r.1, .done r.2)
 
